@@ -333,10 +333,22 @@ class Canon:
             if self.callee_of is not None and e.keywords:
                 fn_ = self.callee_of(e)
                 if fn_ is not None:
-                    a_ = fn_.args
-                    pos = a_.posonlyargs + a_.args
-                    dflt = dict(zip([x.arg for x in pos[len(pos) - len(a_.defaults):]], a_.defaults)) if a_.defaults else {}
-                    dflt.update({x.arg: d for x, d in zip(a_.kwonlyargs, a_.kw_defaults) if d is not None})
+                    dflt = {}
+                    for _hop in range(3):
+                        a_ = fn_.args
+                        pos = a_.posonlyargs + a_.args
+                        d1 = dict(zip([x.arg for x in pos[len(pos) - len(a_.defaults):]], a_.defaults)) if a_.defaults else {}
+                        d1.update({x.arg: d for x, d in zip(a_.kwonlyargs, a_.kw_defaults) if d is not None})
+                        for k1, v1 in d1.items():
+                            dflt.setdefault(k1, v1)
+                        if a_.kwarg is None:
+                            break
+                        # def as_bin(self, *args, **kwargs): ... self.stream(f, *args, **kwargs): the keywords are the forwarded callee's
+                        fwd = [c for c in ast.walk(fn_) if isinstance(c, ast.Call) and any(k.arg is None and isinstance(k.value, ast.Name) and k.value.id == a_.kwarg.arg for k in c.keywords)]
+                        nxt = self.callee_of(fwd[0]) if len(fwd) == 1 else None
+                        if nxt is None or nxt is fn_:
+                            break
+                        fn_ = nxt
                     keep_kw = []
                     for k_ in e.keywords:
                         d_ = dflt.get(k_.arg) if k_.arg else None
@@ -1428,6 +1440,13 @@ def canon_loop_header(target, it):
         i, x = target.elts
         new_it = ast.Call(ast.Name("range", ast.Load()), [ast.Call(ast.Name("len", ast.Load()), [it.args[0]], [])], [])
         return ast.Name(i.id, ast.Store()), new_it, {x.id: ast.Subscript(copy.deepcopy(it.args[0]), ast.Name(i.id, ast.Load()), ast.Load())}
+    if isinstance(it, ast.Call) and isinstance(it.func, ast.Name) and it.func.id == "range" and len(it.args) == 2 and not it.keywords and isinstance(target, ast.Name) \
+            and isinstance(it.args[0], ast.Constant) and type(it.args[0].value) is int and it.args[0].value != 0:
+        # for d in range(a, b)  ==  for d0 in range(b - a) with d = d0 + a
+        a = it.args[0].value
+        n_ = Canon(None, lambda t: True).linear(ast.BinOp(copy.deepcopy(it.args[1]), ast.Sub(), ast.Constant(a)), True)
+        new_it = ast.Call(ast.Name("range", ast.Load()), [n_], [])
+        return target, new_it, {target.id: ast.BinOp(ast.Name(target.id, ast.Load()), ast.Add(), ast.Constant(a))}
     return target, it, {}
 
 
@@ -2105,7 +2124,55 @@ def _canon_test_ast(t):
     return t
 
 
+def _split_loop_targets(func_node):
+    """a name used as the target of several for-loops and read nowhere else is one local per loop:
+    `for t in a: ...; for t in b: ...` and `for x in a: ...; for y in b: ...` are the same function"""
+    if not isinstance(func_node, (ast.FunctionDef, ast.AsyncFunctionDef)):
+        return func_node
+    loops_of = {}
+    for n in ast.walk(func_node):
+        if isinstance(n, ast.For) and isinstance(n.target, ast.Name):
+            loops_of.setdefault(n.target.id, []).append(n)
+    cand = {nm: ls for nm, ls in loops_of.items() if len(ls) > 1}
+    if not cand:
+        return func_node
+    params = {a.arg for a in func_node.args.args + func_node.args.posonlyargs + func_node.args.kwonlyargs}
+    ok = {}
+    for nm, ls in cand.items():
+        if nm in params:
+            continue
+        inside = set()
+        nested = False
+        for l in ls:
+            for x in ast.walk(l):
+                if x is not l and isinstance(x, ast.For) and isinstance(x.target, ast.Name) and x.target.id == nm:
+                    nested = True
+                if isinstance(x, ast.Name) and x.id == nm:
+                    inside.add(id(x))
+        total = [x for x in ast.walk(func_node) if isinstance(x, ast.Name) and x.id == nm]
+        stores = [x for x in total if isinstance(x.ctx, ast.Store) and not any(x is l.target for l in ls)]
+        if nested or stores or any(id(x) not in inside for x in total):
+            continue
+        ok[nm] = ls
+    if not ok:
+        return func_node
+    new = copy.deepcopy(func_node)
+    for nm in ok:
+        k = 0
+        for n in ast.walk(new):
+            if isinstance(n, ast.For) and isinstance(n.target, ast.Name) and n.target.id == nm:
+                k += 1
+                if k == 1:
+                    continue
+                fresh = "%s__loop%d" % (nm, k)
+                for x in ast.walk(n):
+                    if isinstance(x, ast.Name) and x.id == nm:
+                        x.id = fresh
+    return new
+
+
 def summarize(func_node, canon, leaf=None, keep=()):
+    func_node = _split_loop_targets(func_node)
     params = {a.arg for a in func_node.args.args + func_node.args.posonlyargs + func_node.args.kwonlyargs}
     keep = set(keep) | (mutated_locals(func_node) - params)
     w = SymWalker(func_node, canon, leaf, keep=keep, ignore_asserts=True)     # assertions are not behaviour a property may rest on (python -O removes them)
@@ -2560,7 +2627,67 @@ def _sort_formula(f):
 POLICY = os.environ.get("VERIF_DIFF_POLICY", "medium")
 
 
-def compare_summaries(code, ref, near=0.7):
+def _vname_mapping(details):
+    """when every `differs` pair differs only in the numbering of locals (_v3 where the reference has _v2), the
+    consistent one-to-one renaming of the code's locals that makes them agree; else None"""
+    import difflib
+    import re
+    m = {}
+    seen = False
+    for d in details:
+        if d[0] not in ("differs", "order"):
+            continue
+        ta, tb = _tokens(d[2] or ""), _tokens(d[3] or "")
+        if len(ta) != len(tb):
+            return None
+        for x, y in zip(ta, tb):
+            if x == y:
+                continue
+            if not (re.fullmatch(r"_v\d+", x) and re.fullmatch(r"_v\d+", y)):
+                return None
+            if m.setdefault(y, x) != x:
+                return None
+            seen = True
+    if not seen or len(set(m.values())) != len(m):
+        return None
+    # complete to a permutation
+    missing_src = [v for v in m.values() if v not in m]
+    missing_dst = [k for k in m if k not in m.values()]
+    for a_, b_ in zip(sorted(missing_src), sorted(missing_dst)):
+        m[a_] = b_
+    return m
+
+
+def _rename_summary(sm, m):
+    import re
+    pat = re.compile(r"(?<![A-Za-z0-9_])_v\d+(?![A-Za-z0-9_])")
+    ren = lambda t: pat.sub(lambda mo: m.get(mo.group(0), mo.group(0)), t)
+
+    def rf(f):
+        if f in (True, False):
+            return f
+        if f[0] == "op":
+            return ("op", ren(f[1])) if isinstance(f[1], str) else f
+        if f[0] == "set":
+            return f
+        if f[0] == "not":
+            return ("not", rf(f[1]))
+        return (f[0], [rf(g) for g in f[1]]) if isinstance(f[1], list) else (f[0], tuple(rf(g) for g in f[1]))
+    return Summary([Item(i.kind, ren(i.head), rf(i.cond)) for i in sm.items], sm.w)
+
+
+def compare_summaries(code, ref, near=0.7, _renamed=False):
+    status, details = _compare_summaries(code, ref, near)
+    if status != "same" and not _renamed:
+        m = _vname_mapping(details)
+        if m:
+            st2, det2 = _compare_summaries(_rename_summary(code, m), ref, near)
+            if {"same": 0, "differs": 1, "near": 2, "unrecognised": 3}[st2] <= {"same": 0, "differs": 1, "near": 2, "unrecognised": 3}[status] and len(det2) < len(details):
+                return st2, det2
+    return status, details
+
+
+def _compare_summaries(code, ref, near=0.7):
     """-> (status, details): 'same' | 'differs' (every component of the reference has a counterpart, at least one
     computes something else or happens under another condition) | 'unrecognised' (some component of the
     reference has no counterpart: the function is organised differently, no verdict)"""
